@@ -311,6 +311,15 @@ func init() {
 					}
 				}
 			}
+			if se, ok := args[1].(*ast.SelectorExpr); ok && key == nil {
+				if id, ok := se.X.(*ast.Ident); ok {
+					if p := e.lookupPkg(id.Name); p != nil {
+						if o, ok := p.Scope().Lookup(se.Sel.Name).(*types.Const); ok {
+							key = Iface{Dyn: o.Type(), V: constToValue(e.st, o.Val(), o.Type())}
+						}
+					}
+				}
+			}
 			if key == nil {
 				key = e.eval(args[1])
 			}
